@@ -342,7 +342,21 @@ func c18_1(c *core.Ctx, p *core.Prog) {
 		}
 	})
 	if len(preds) == 0 {
-		c.Undecided("pred", p.Pos(a.exportFn.Pos()), core.FuncName(a.exportFn), "the export goroutine calls no func([]contributor) bool predicate over the whole contributor list: the single-context decision is computed some other way (e.g. a flag maintained while the batch is assembled), and this rule cannot show that every contributor — including one only partly in the batch — is compared; a contributor that is not compared lets a mixed batch be exported under the first caller's context")
+		iff := a.singleCtxIf()
+		if iff == nil {
+			c.Undecided("pred", p.Pos(a.exportFn.Pos()), core.FuncName(a.exportFn), "single-context detection not found: the export goroutine neither calls a func([]contributor) bool predicate nor branches between a contributor's and the shard's own context for the export span")
+		} else {
+			ok, und, msg := a.flagDiscipline(p, iff.Cond)
+			key := "flag=" + core.FuncName(a.sendFn)
+			switch {
+			case und:
+				c.Undecided(key, p.Pos(a.sendFn.Pos()), core.FuncName(a.sendFn), msg)
+			case ok:
+				c.OK(key, p.Pos(a.sendFn.Pos()), core.FuncName(a.sendFn), msg)
+			default:
+				c.Viol(key, p.Pos(a.sendFn.Pos()), core.FuncName(a.sendFn), "the single-context decision does not examine every contributor: "+msg+"; a batch whose unexamined contributor has a different context is exported under the first caller's context")
+			}
+		}
 	}
 	for _, f := range cbpFuncs(c, p) {
 		if core.IsCanaryPath(core.FnPkgPath(f)) && isCtxTupleSlicePred(f) {
@@ -437,7 +451,166 @@ func (a *cbpAnchors) singleCtxIf() *ssa.If {
 			}
 		}
 	})
+	if res != nil {
+		return res
+	}
+	// semantic fallback: the branch that separates a Tracer.Start whose parent is a contributor's
+	// context from a Tracer.Start whose parent is the shard's own context
+	var callerStart, ownStart []*ssa.Call
+	core.EachInstr(a.exportFn, func(i ssa.Instruction) {
+		cl, ok := i.(*ssa.Call)
+		if !ok || !cl.Call.IsInvoke() || cl.Call.Method.Name() != "Start" || len(cl.Call.Args) < 1 || !isCtx(cl.Call.Args[0].Type()) {
+			return
+		}
+		o := a.ctxOrigins(cl.Call.Args[0])
+		switch {
+		case len(o["caller"]) > 0 && len(o["own"]) == 0:
+			callerStart = append(callerStart, cl)
+		case len(o["own"]) > 0 && len(o["caller"]) == 0:
+			ownStart = append(ownStart, cl)
+		}
+	})
+	if len(callerStart) == 1 && len(ownStart) == 1 {
+		core.EachInstr(a.exportFn, func(i ssa.Instruction) {
+			iff, ok := i.(*ssa.If)
+			if !ok || res != nil {
+				return
+			}
+			if (core.GuardedBy(iff, true, callerStart[0]) && core.GuardedBy(iff, false, ownStart[0])) || (core.GuardedBy(iff, false, callerStart[0]) && core.GuardedBy(iff, true, ownStart[0])) {
+				res = iff
+			}
+		})
+	}
 	return res
+}
+
+// flagDiscipline checks the incremental form of the single-context decision: a boolean cell of the
+// sending function, initialised true, cleared under a comparison of two request contexts; every site
+// that adds a contributor to the list must be preceded, in its iteration, by such a comparison (the
+// only way round it being the "list still empty" edge).
+func (a *cbpAnchors) flagDiscipline(p *core.Prog, cond ssa.Value) (ok bool, undecided bool, msg string) {
+	// the flag cell: an Alloc of the sending function that the condition loads (through the closure)
+	var cell *ssa.Alloc
+	core.BackSlice(cond, func(v ssa.Value) bool {
+		if al, isAl := v.(*ssa.Alloc); isAl && al.Parent() == a.sendFn && isBool(al.Type().(*types.Pointer).Elem()) {
+			cell = al
+			return false
+		}
+		return true
+	})
+	if cell == nil {
+		return false, true, "the single-context decision derives neither from a predicate over the contributor list nor from a boolean of the sending function"
+	}
+	fn := a.sendFn
+	var clears []*ssa.Store
+	for _, r := range core.Referrers(cell) {
+		st, isSt := r.(*ssa.Store)
+		if !isSt || st.Addr != ssa.Value(cell) {
+			continue
+		}
+		b, isC := core.ConstBool(st.Val)
+		if !isC {
+			return false, true, "the single-context flag is assigned a computed value at " + p.Pos(st.Pos())
+		}
+		if !b {
+			clears = append(clears, st)
+		}
+	}
+	if len(clears) == 0 {
+		return false, false, "the single-context flag is never cleared"
+	}
+	// comparisons of two request contexts whose 'different' arm clears the flag
+	var cmps []*ssa.If
+	for _, b := range fn.Blocks {
+		iff := core.IfOf(b)
+		if iff == nil {
+			continue
+		}
+		bo, isB := iff.Cond.(*ssa.BinOp)
+		if !isB || (bo.Op != token.NEQ && bo.Op != token.EQL) || !isCtx(bo.X.Type()) {
+			continue
+		}
+		if len(a.ctxOrigins(bo.X)["caller"]) == 0 || len(a.ctxOrigins(bo.Y)["caller"]) == 0 {
+			continue
+		}
+		for _, st := range clears {
+			if core.GuardedBy(iff, bo.Op == token.NEQ, st) {
+				cmps = append(cmps, iff)
+			}
+		}
+	}
+	if len(cmps) == 0 {
+		return false, false, "the single-context flag is not cleared under a comparison of two request contexts"
+	}
+	// add sites: stores of an append(...) result into a slice cell whose element has a context field
+	var adds []*ssa.Store
+	core.EachInstr(fn, func(i ssa.Instruction) {
+		st, isSt := i.(*ssa.Store)
+		if !isSt {
+			return
+		}
+		sl, isSl := st.Val.Type().Underlying().(*types.Slice)
+		if !isSl || len(ctxFields(sl.Elem())) == 0 {
+			return
+		}
+		if cl, isCl := st.Val.(*ssa.Call); isCl {
+			if bi, isBi := cl.Call.Value.(*ssa.Builtin); isBi && bi.Name() == "append" {
+				adds = append(adds, st)
+			}
+		}
+	})
+	if len(adds) == 0 {
+		return false, true, "no site adding a contributor to the list found"
+	}
+	loops := loopsOf(fn)
+	for _, A := range adds {
+		var header *ssa.BasicBlock
+		var body map[*ssa.BasicBlock]bool
+		for h, bd := range loops {
+			if bd[A.Block()] && (body == nil || len(bd) < len(body)) {
+				header, body = h, bd
+			}
+		}
+		if header == nil {
+			return false, true, "a contributor is added outside a loop"
+		}
+		cut := map[core.Edge]bool{}
+		for _, pr := range header.Preds {
+			if body[pr] {
+				cut[core.Edge{From: pr, To: header}] = true
+			}
+		}
+		// the "list still empty" edge: len(list) == 0 / != 0
+		for _, b := range fn.Blocks {
+			iff := core.IfOf(b)
+			if iff == nil {
+				continue
+			}
+			subj, zeroOnTrue, isZ := zeroCond(iff.Cond)
+			if !isZ {
+				continue
+			}
+			if sl, isSl := subj.Type().Underlying().(*types.Slice); isSl && len(ctxFields(sl.Elem())) > 0 {
+				idx := 1
+				if zeroOnTrue {
+					idx = 0
+				}
+				cut[core.Edge{From: b, To: b.Succs[idx]}] = true
+			}
+		}
+		isCmp := func(i ssa.Instruction) bool {
+			for _, j := range cmps {
+				if i == ssa.Instruction(j) {
+					return true
+				}
+			}
+			return false
+		}
+		if bypass, _ := (core.PathQuery{Fn: fn, From: header.Instrs[0], To: A, Avoid: isCmp, CutEdges: cut}).Exists(); bypass {
+			return false, false, fmt.Sprintf("the contributor added at %s is not compared: a path through the loop reaches it without evaluating the context comparison that clears the single-context flag (e.g. the arm for a request only partly in the batch)", p.Pos(A.Pos()))
+		}
+	}
+	return true, false, fmt.Sprintf("incremental form: %d add site(s), each preceded in its iteration by the context comparison that clears the flag", len(adds))
 }
 
 func c18_2(c *core.Ctx, p *core.Prog) {
